@@ -20,11 +20,11 @@ from .. import kc
 from ..common import MachineryFailure, REPO
 from ..tlc import extract_tuples, run_tlc
 
-SKELETON = ["OUT", "R", "R/components", "R/components/c", "R/proj", "R/proj/sub", "R/proj/nested", "R/sib", "R/orphan"]
-PARENT = {"OUT": "OUT", "R": "OUT", "R/components": "R", "R/components/c": "R/components", "R/proj": "R", "R/proj/sub": "R/proj", "R/proj/nested": "R/proj", "R/sib": "R", "R/orphan": "R"}
+SKELETON = ["OUT", "R", "R/components", "R/components/c", "R/proj", "R/proj/sub", "R/proj/nested", "R/proj/nested/inner", "R/sib", "R/orphan"]
+PARENT = {"OUT": "OUT", "R": "OUT", "R/components": "R", "R/components/c": "R/components", "R/proj": "R", "R/proj/sub": "R/proj", "R/proj/nested": "R/proj", "R/proj/nested/inner": "R/proj/nested", "R/sib": "R", "R/orphan": "R"}
 PROJECTS_DEFAULT = {"R/proj", "R/proj/nested", "R/sib"}
-RENAME_DIRS = ["R", "R/components/c", "R/proj", "R/proj/sub", "R/proj/nested", "R/sib", "R/orphan"]
-FILE_DIRS = ["R/components/c", "R/proj", "R/proj/sub", "R/proj/nested", "R/sib", "R/orphan"]
+RENAME_DIRS = ["R", "R/components/c", "R/proj", "R/proj/sub", "R/proj/nested", "R/proj/nested/inner", "R/sib", "R/orphan"]
+FILE_DIRS = ["R/components/c", "R/proj", "R/proj/sub", "R/proj/nested", "R/proj/nested/inner", "R/sib", "R/orphan"]
 
 
 def old_name(d):
@@ -38,8 +38,13 @@ def universes(rng, n, fixed=True):
         # seed-independent core: every single rename placement x a file in every directory using that name
         for rd in RENAME_DIRS:
             combos.append(([rd], [(fd, [old_name(rd)]) for fd in FILE_DIRS][:3]))
-            combos.append(([rd], [(fd, [old_name(rd)]) for fd in FILE_DIRS][3:]))
+            combos.append(([rd], [(fd, [old_name(rd)]) for fd in FILE_DIRS][3:6]))
+            combos.append(([rd], [(fd, [old_name(rd)]) for fd in FILE_DIRS][5:]))
         combos.append((["R/proj", "R/proj/nested", "R/sib"], [("R/proj/sub", [old_name("R/proj/nested"), old_name("R/sib")]), ("R/proj/nested", [old_name("R/proj")]), ("R/proj", [old_name("R/proj")])]))
+        # a nested project with rename files in two of its directories, checked after / before files of the outer project
+        two = ["R/proj/nested", "R/proj/nested/inner"]
+        combos.append((two, [("R/proj", [old_name(two[0])]), ("R/proj/nested", [old_name(two[1])]), ("R/proj/nested/inner", [old_name(two[0])])]))
+        combos.append((two + ["R/proj"], [("R/proj/sub", [old_name(two[1])]), ("R/proj/nested", [old_name(two[0]), old_name(two[1])]), ("R/proj/nested", [old_name("R/proj")])]))
     for _ in range(n):
         rds = rng.sample(RENAME_DIRS, rng.choice([1, 2, 3]))
         files = []
@@ -171,7 +176,7 @@ def main(run):
     run.cov["cli_runs"] = sub_checked
     run.cov["exhaustive"] = True
     run.cov["rule"] = (
-        "directory universes over a 9-directory skeleton (outside, IDF root, components/c, project, its sub-directory, nested project, "
+        "directory universes over a 10-directory skeleton (outside, IDF root, components/c, project, its sub-directory, nested project and a directory of it, "
         "sibling project, orphan directory): every single rename placement with files in every directory (fixed part) + seeded "
         "placements of <= 3 rename files and <= 3 defaults files, occasionally with a project marker removed; per universe every order "
         "of every subset of the files, explored by TLC and run on the real functions; non-trivial = orders of >= 2 files"
